@@ -21,7 +21,7 @@ PROP = "C09"
 PROP_FILE = "C09_SchemaSyn"
 THEOREMS = ["c09_json_roundtrip", "c09_reference_form_insensitive_partial", "c09_reference_form_types_partial",
             "c09_resolve_order_independent_partial", "c09_validation_same",
-            "c09_cedar_roundtrip_refuted"]
+            "c09_cedar_roundtrip_refuted", "c09_cedar_roundtrip_types_partial", "c09_cedar_roundtrip_refuted_action"]
 
 MANIFEST = {
     "text": "Schema fragments with the three reference forms (Entity / CommonRef / EntityOrCommon), `resolve` transcribed from "
